@@ -117,7 +117,13 @@ def xFrag (XO : XOracles) : XDecl → PyVal → Bool
             n == c.name && c.required.all (fun r => (lookup r attrs).isSome)
               && xCanonAttrs XO c fields attrs
           | _ => false)
-  | .structU _ _, _ => false      -- (_enable_undefined_value classes: modelled and corresponded, not in the proved fragment)
+  | .structU c fields, v =>
+    !c.ignoreNone && c.accepts.contains c.name && decide ((fields.map (·.1)).Nodup)
+      && (match v with
+          | .inst n attrs =>
+            n == c.name && c.required.all (fun r => (lookup r attrs).isSome)
+              && xCanonAttrsU XO c fields attrs
+          | _ => false)
 termination_by structural x _ => x
 
 /-- `AnyOf[x₁, …, xₙ]` holding `v`: some option owns the value - its `_validate` passes and `v` lies in its
@@ -141,6 +147,17 @@ def xFragZip (XO : XOracles) : List XDecl → List PyVal → Bool
   | _ :: _, [] => true
   | x :: xs, y :: ys => xFrag XO x y && xFragZip XO xs ys
 termination_by structural xs _ => xs
+
+/-- the same for an `_enable_undefined_value` class: an attribute may hold None (where its field's fragment has None:
+    `AnyOf[X, NoneField]`), which is a state of its own there -/
+def xCanonAttrsU (XO : XOracles) (c : ClassOpts) :
+    List (String × XDecl) → List (String × PyVal) → Bool
+  | [], attrs => attrs.isEmpty
+  | (n, _) :: rest, [] => absentOk c [] n && xCanonAttrsU XO c rest []
+  | (n, x) :: rest, (m, v) :: as =>
+    if m == n then xFrag XO x v && xCanonAttrsU XO c rest as
+    else absentOk c [] n && xCanonAttrsU XO c rest ((m, v) :: as)
+termination_by structural fs _ => fs
 
 /-- the attribute list as the constructor builds it: declared fields only, in field order, every set
     value not None and in the fragment, every unset field optional -/
